@@ -266,6 +266,8 @@ def corpus_cases():
     C.append(mk_case("corpus", "two-failing-calls", [("run", b"SOLUTION 1\n -bogus\nEND\n"), ("run", b"USE solution 9\nEND\n")], sw=[("errstr", 1)]))
     C.append(mk_case("corpus", "unwritable-all", [("run", PROBE.encode())], sw=[("errstr", 1), ("outfile", 1), ("errfile", 1), ("logfile", 1), ("dumpfile", 1), ("selfile", 1)],
                      fn=[("out", b"/nonexistent_dir_c08/o"), ("err", b"/dev/null/x"), ("log", b"."), ("dump", b"/dev/full"), ("sel", b"")]))
+    # the listed hang first: its confirmation (HANG_CPU seconds of CPU alone on the plain build) then overlaps with the rest of the run
+    C.sort(key=lambda c_: c_["tag"] != "kinetics-constant-rate")
     return C
 
 
